@@ -43,11 +43,31 @@ def seq{N}_{TAG}_reach({KARGS}{SEP}jsel: int) -> bool:
 '''
 
 
+CTX = '''
+def ctx_{HELPER}(okind: int, status: int, ckind: int, depth: int, sup: bool) -> bool:
+    """
+    pre: 0 <= okind < {NO} and {SLO} <= status <= {SHI} and 0 <= ckind < {K} and 0 <= depth <= 2
+    post: _
+    """
+    return H.context_check({HELPER!r}, okind, status, ckind, depth, sup) == ''
+
+
+def ctx_{HELPER}_reach(okind: int, status: int, ckind: int, depth: int, sup: bool) -> bool:
+    """
+    pre: 0 <= okind < {NO} and {SLO} <= status <= {SHI} and 0 <= ckind < {K} and 0 <= depth <= 2
+    post: _
+    """
+    # reachability twin: must be REFUTED (the error is raised while an implicit __context__ is set on it)
+    r = H.context_run({HELPER!r}, okind, status, ckind, depth, sup)
+    return not (r[0] == 'raised' and r[4])
+'''
+
+
 def seq_tag(prefix):
     return '_'.join(str(k) for k in prefix)
 
 
-def source(sweeps, seqs, K, MAXS, NREPS):
+def source(sweeps, seqs, K, MAXS, NREPS, ctx=(), NO=0, SLO=400, SHI=405):
     """sweeps: list of (t, lo, hi) kind ranges; seqs: list of (n, fixed_prefix_kinds, twin_outcome)"""
     out = [HEAD]
     for t in sorted({t for t, _, _ in sweeps}):
@@ -61,4 +81,6 @@ def source(sweeps, seqs, K, MAXS, NREPS):
                               SEP=', ' if kn else '',
                               KPRE=' and '.join(f'0 <= {k} < {NREPS}' for k in kn) or 'True',
                               KLIST=', '.join([str(k) for k in prefix] + kn), WHAT=what))
+    for h in ctx:
+        out.append(CTX.format(HELPER=h, NO=NO, SLO=SLO, SHI=SHI, K=K))
     return '\n'.join(out)
